@@ -236,7 +236,7 @@ func Check(tier string) int {
 	seed := rep.Seed()
 	rp := rep.NewReporter("C18")
 	kf := rep.LoadFindings()
-	raceBin := "/verif/.work/bin/check-race"
+	raceBin := rep.Root + "/.work/bin/check-race"
 	if _, err := os.Stat(raceBin); err != nil {
 		fmt.Println("ERROR: the -race build of the harness is missing (exit 2):", err)
 		return 2
@@ -252,7 +252,7 @@ func Check(tier string) int {
 	for i := 0; i < nprog; i++ {
 		progs = append(progs, execfam.Gen(rng, prof, fmt.Sprintf("r%d", i)))
 	}
-	logdir, _ := os.MkdirTemp("/verif/.work", "race")
+	logdir, _ := os.MkdirTemp(rep.Root+"/.work", "race")
 	defer os.RemoveAll(logdir)
 	workers := runtime.NumCPU() / 2
 	var wg sync.WaitGroup
